@@ -26,6 +26,9 @@ RULE = ("cases = chain of 1..3 classes (attrs: slots x frozen x cache_hash x wea
         "(preferably equal to the alias of an init=False field of the chain); chains whose init fields all have a plain default (the very object "
         "standing for the value) or a factory, built without passing anything, and histories where a field is changed and set back to the same "
         "object (all harness-only variation); "
+        "a dunder-like field name (`__meta__`); HISTORIES of definitions: for half of the chains the same module + qualnames were defined and used "
+        "(constructed, copied, pickled) once before with the same options and number of fields but other field names, or the same names in "
+        "reverse order (harness-only: the model knows no earlier definition); "
         "plain classes without / with empty / with named __slots__; a fifth of the chains rooted at Exception with auto_exc=True (copied through "
         "BaseException.__reduce__ as cls(*args) + __setstate__(__dict__)); chains whose init fields all have default factories, left unpassed at "
         "construction (the factory yields the field's value while the harness builds an instance and a DIFFERENT value whenever it runs during "
@@ -118,6 +121,9 @@ def vary_front(c, rng):
     elif c["api"] == "define" and c["frozen"] and rng.random() < 0.5:
         c["api"] = "frozen"
     c["nested"] = rng.random() < 0.25        # class statement inside a namespace class: dotted __qualname__
+    # history of definitions (read on the last class of a chain): the same module + qualnames were defined and used
+    # before with other field names / another field order
+    c["decoy"] = rng.choice([None, None, None, "rename", "rename", "reverse"])
     return c
 
 
@@ -375,6 +381,7 @@ def dist(case, obs):
         "cacheAfter": obs.get("cacheAfter") if isinstance(obs, dict) else "?",
         "front_end": leaf.get("api") + ("/" + leaf["front"] if leaf.get("front", "class") != "class" else "") + ("/nested" if leaf.get("nested") else ""),
         "exception": ("auto_exc" if case.get("exc") else "no") + ("+defaults" + ("" if case.get("cfg", {}).get("passArgs", True) else " unpassed") if any(f.get("factory") or f.get("default") for f in B.leaf_fields(chain)) else ""),
+        "earlier_definition": str(chain[-1].get("decoy")),
         "aliases": ("explicit" if any(f.get("alias") for f in B.leaf_fields(chain)) else "-") + ("+shared" if len({(f.get("alias") or f["name"].lstrip("_")) for f in B.leaf_fields(chain)}) < len(B.leaf_fields(chain)) else ""),
         "unusual_values": ",".join(sorted({f["special"] for f in B.leaf_fields(chain) if f.get("special")})) or "-",
     }
@@ -382,7 +389,7 @@ def dist(case, obs):
 
 _DEFAULT_ATTRS = dict(slots=False, frozen=False, cacheHash=False, weakrefSlot=True, gs="none", autoDetect=False,
                       userGS=False, eq=True, unsafeHash=False, collectByMro=False, api="attr.s", explicit=True,
-                      gsExplicitNone=False, hashKw="unsafe_hash", front="class", nested=False)
+                      gsExplicitNone=False, hashKw="unsafe_hash", front="class", nested=False, decoy=None)
 
 
 def _variants(case):
